@@ -176,6 +176,12 @@ class Report:
                 f.replay.setdefault("more_cases", 0)
                 f.replay["more_cases"] += 1
                 return
+        try:
+            import elements as _E
+            if _E.WARM is not None and isinstance(replay, dict):
+                replay = dict(replay, _warm=True)      # elements may have been used before (re-run with --replay)
+        except Exception:  # noqa: BLE001
+            pass
         self.failures.append(Failure(self.prop, source, signature, what, replay, found_input))
 
 
